@@ -259,3 +259,13 @@ def execute(scn):
         res['sample'] = {'side': side, 'ops': tags, 'order': scn['order'],
                          'fault': scn.get('fault')}
     return res
+
+
+def shrinks(scn):
+    if scn.get('fault'):
+        c = copy.deepcopy(scn)
+        c.pop('fault')
+        yield c
+    for c in scenarios.shrink_single_step(scn):
+        # every model named by the shrunk scenario keeps its side
+        yield c
